@@ -1,11 +1,16 @@
 (** C10 - whatever rocfl accepts and writes to an inventory it can read back unchanged.
     Property theorems only; each closed by [exact] of a lemma from Proofs/Json*.v.
     [serde_escape] is serde_json's writer, [decode_string] its (RFC 8259) reader,
-    [read_borrowed] the reader behind a borrowed-only type, [rocfl_read_pos] rocfl's
-    reader for one inventory position, [create_object_cdir] the content directory names
-    create_object accepts, [KnownC10.*] the recorded defect classes (json-escape-borrowed,
-    validator-json-escape; the two content-directory classes were repaired in /repo by
-    d88c1da, the class id-trimmed by 031a721: their theorems are unconditional now). *)
+    [read_borrowed] the reader behind a borrowed-only type, [main_read_pos] / [val_read_pos]
+    rocfl's CURRENT readers (main reader src/ocfl/serde.rs after bb69bb9, rocfl validate
+    src/ocfl/validate/serde.rs after 2f36fc5) for one inventory position, [create_object_cdir]
+    the content directory names create_object accepts.  No known-finding class is left: the
+    five recorded classes were repaired in /repo (d88c1da, 031a721, bb69bb9, 2f36fc5) and every
+    theorem below is unconditional.  [rocfl_read_pos] / [validator_read_pos] are the HISTORICAL
+    readers and occur only in the `C10_before_fix_...` notes.
+    [KnownC10.c10_foreign_escaped_version_name] is not a defect class of C10: it names the
+    tokens (an escaped spelling of head / a version key, which rocfl never writes) on which the
+    main reader still differs from a conforming decoder. *)
 From Rocfl Require Import Base.Bytes Model.VersionNum Model.Json Model.KnownC10 Generated.Consts
   Proofs.JsonFacts Proofs.JsonPathFacts Proofs.JsonPosFacts.
 Open Scope N_scope.
@@ -49,46 +54,72 @@ Theorem C10_borrowed_agrees_with_owned : forall t s, read_borrowed t = Some s ->
 Proof. exact read_borrowed_decode. Qed.
 Print Assumptions C10_borrowed_agrees_with_owned.
 
-(** ** rocfl's reader, position by position *)
-Theorem C10_rocfl_read_roundtrip : forall p s,
-  utf8_valid s = true -> pos_value_ok p s = true -> c10_needs_json_escape p s = false ->
-  rocfl_read_pos p (serde_escape s) = Some s.
-Proof. exact rocfl_read_roundtrip. Qed.
-Print Assumptions C10_rocfl_read_roundtrip.
-
-Theorem C10_rocfl_read_fails_exactly_in_known_class : forall p s,
+(** ** rocfl's CURRENT readers, position by position: everything rocfl writes is read back *)
+Theorem C10_main_read_roundtrip : forall p s,
   utf8_valid s = true -> pos_value_ok p s = true ->
-  (rocfl_read_pos p (serde_escape s) = Some s <-> c10_needs_json_escape p s = false).
-Proof. exact rocfl_read_iff. Qed.
-Print Assumptions C10_rocfl_read_fails_exactly_in_known_class.
+  main_read_pos p (serde_escape s) = Some s.
+Proof. exact main_read_roundtrip. Qed.
+Print Assumptions C10_main_read_roundtrip.
 
-(** id, contentDirectory, message, user name, user address: unconditional *)
+(** id, contentDirectory, message, user name, user address, digests: whatever they contain *)
 Theorem C10_owned_text_roundtrip : forall p s,
-  free_text p = true -> pos_borrowed p = false -> utf8_valid s = true ->
-  rocfl_read_pos p (serde_escape s) = Some s.
+  free_text p = true -> utf8_valid s = true ->
+  main_read_pos p (serde_escape s) = Some s.
 Proof. exact owned_text_roundtrip. Qed.
 Print Assumptions C10_owned_text_roundtrip.
 
 Theorem C10_validator_read_roundtrip : forall p s,
-  utf8_valid s = true -> c10_validator_needs_json_escape p s = false ->
-  validator_read_pos p (serde_escape s) = Some s.
-Proof. exact validator_read_roundtrip. Qed.
+  utf8_valid s = true -> val_read_pos p (serde_escape s) = Some s.
+Proof. exact val_read_roundtrip. Qed.
 Print Assumptions C10_validator_read_roundtrip.
 
-(** ** accepted operations never wedge the object outside the known classes *)
+(** on ARBITRARY tokens: the validator's reader is the conforming decoder at every position ... *)
+Theorem C10_validator_reader_is_conforming : forall p t, val_read_pos p t = decode_string t.
+Proof. exact val_read_conforming. Qed.
+Print Assumptions C10_validator_reader_is_conforming.
+
+(** ... the main reader is the conforming decoder followed by the position's visitor at every
+    position except head and the version keys (VersionNum, #[serde(try_from = "&str")]) ... *)
+Theorem C10_main_reader_is_conforming : forall p t,
+  c10_foreign_escaped_version_name p t = false ->
+  main_read_pos p t = match decode_string t with Some s => post_visit p s | None => None end.
+Proof. exact main_read_conforming. Qed.
+Print Assumptions C10_main_reader_is_conforming.
+
+Theorem C10_main_reader_is_conforming_outside_versions : forall p t,
+  main_pos_borrowed p = false ->
+  main_read_pos p t = match decode_string t with Some s => post_visit p s | None => None end.
+Proof. exact main_read_conforming_outside_versions. Qed.
+Print Assumptions C10_main_reader_is_conforming_outside_versions.
+
+(** ... where an escaped spelling is refused; rocfl never writes one (a version name has no
+    byte serde_json escapes), so this only concerns inventories written by other software *)
+Theorem C10_foreign_escaped_version_name_refused : forall p t,
+  c10_foreign_escaped_version_name p t = true -> main_read_pos p t = None.
+Proof. exact main_read_foreign_escaped_version_refused. Qed.
+Print Assumptions C10_foreign_escaped_version_name_refused.
+
+Theorem C10_rocfl_never_writes_escaped_version_name : forall p s,
+  pos_value_ok p s = true -> c10_foreign_escaped_version_name p (serde_escape s) = false.
+Proof. exact written_token_not_foreign_class. Qed.
+Print Assumptions C10_rocfl_never_writes_escaped_version_name.
+
+(** ** accepted operations never wedge the object (no exception any more) *)
 Theorem C10_cp_no_wedge : forall dst src lp,
   cp_logical_path dst src = Ok lp -> utf8_valid lp = true ->
-  c10_needs_json_escape PLogicalPath lp = false ->
-  rocfl_read_pos PLogicalPath (serde_escape lp) = Some lp.
+  main_read_pos PLogicalPath (serde_escape lp) = Some lp /\
+  val_read_pos PLogicalPath (serde_escape lp) = Some lp.
 Proof. exact cp_no_wedge. Qed.
 Print Assumptions C10_cp_no_wedge.
 
-(** create_object's acceptance of a content directory (repo.rs:579-590, after fix d88c1da):
-    validate_content_dir and not blank, not `inventory.json`, not beginning with `inventory.json.` *)
+(** create_object's acceptance of a content directory (repo.rs:579-599, after fixes d88c1da and 29bc659):
+    validate_content_dir and not blank, not `inventory.json`, not beginning with `inventory.json.`,
+    at most 255 bytes and without NUL *)
 Theorem C10_create_object_content_dir_accepts_exactly : forall cdir,
   create_object_cdir cdir = true <->
   validate_content_dir cdir = true /\ is_empty cdir = false /\
-  bytes_eqb cdir K_INVENTORY_FILE = false /\ starts_with K_INVENTORY_SIDECAR_PREFIX cdir = false.
+  bytes_eqb cdir K_INVENTORY_FILE = false /\ starts_with K_INVENTORY_SIDECAR_PREFIX cdir = false /\
+  cdir_not_a_file_name cdir = false.
 Proof. exact create_object_cdir_iff. Qed.
 Print Assumptions C10_create_object_content_dir_accepts_exactly.
 
@@ -99,7 +130,7 @@ Theorem C10_content_path_roundtrip : forall v cdir lp,
   create_object_cdir cdir = true ->
   lpath_try_from lp = Ok lp -> is_empty lp = false ->
   utf8_valid cdir = true -> utf8_valid lp = true ->
-  rocfl_read_pos PContentPath (serde_escape (content_path v cdir lp)) = Some (content_path v cdir lp).
+  main_read_pos PContentPath (serde_escape (content_path v cdir lp)) = Some (content_path v cdir lp).
 Proof. exact content_path_roundtrip. Qed.
 Print Assumptions C10_content_path_roundtrip.
 
@@ -109,6 +140,12 @@ Theorem C10_accepted_content_dir_never_collides : forall cdir alg,
   create_object_cdir cdir = true -> cdir_collides cdir alg = false.
 Proof. exact accepted_cdir_no_collision. Qed.
 Print Assumptions C10_accepted_content_dir_never_collides.
+
+(** every accepted content directory can be the name of a directory (no NUL, at most 255 bytes) *)
+Theorem C10_accepted_content_dir_is_a_file_name : forall cdir,
+  create_object_cdir cdir = true -> fs_name_ok cdir = true.
+Proof. exact accepted_cdir_is_file_name. Qed.
+Print Assumptions C10_accepted_content_dir_is_a_file_name.
 
 Theorem C10_colliding_content_dir_refused : forall cdir alg,
   cdir_collides cdir alg = true -> create_object_cdir cdir = false.
@@ -121,9 +158,9 @@ Theorem C10_content_dir_no_wedge : forall v cdir lp alg,
   create_object_cdir cdir = true ->
   lpath_try_from lp = Ok lp -> is_empty lp = false ->
   utf8_valid cdir = true -> utf8_valid lp = true ->
-  rocfl_read_pos PContentDir (serde_escape cdir) = Some cdir /\
-  rocfl_read_pos PContentPath (serde_escape (content_path v cdir lp)) = Some (content_path v cdir lp) /\
-  cdir_collides cdir alg = false.
+  main_read_pos PContentDir (serde_escape cdir) = Some cdir /\
+  main_read_pos PContentPath (serde_escape (content_path v cdir lp)) = Some (content_path v cdir lp) /\
+  cdir_collides cdir alg = false /\ fs_name_ok cdir = true.
 Proof. exact accepted_cdir_no_wedge. Qed.
 Print Assumptions C10_content_dir_no_wedge.
 
@@ -145,37 +182,41 @@ Print Assumptions C10_object_id_accepted_iff_not_blank.
 (** ... and every later command reads back the very string that was given *)
 Theorem C10_object_id_roundtrip : forall id t,
   create_object_id id = Ok t -> utf8_valid id = true ->
-  t = id /\ rocfl_read_pos PId (serde_escape t) = Some id.
+  t = id /\ main_read_pos PId (serde_escape t) = Some id /\ val_read_pos PId (serde_escape t) = Some id.
 Proof. exact create_object_id_roundtrip. Qed.
 Print Assumptions C10_object_id_roundtrip.
 
-(** ** the excluded classes are genuine defects of the modelled code *)
-Theorem C10_rocfl_roundtrip_refuted : exists dst src lp,
+(** ** historical notes: the readers BEFORE fixes bb69bb9 / 2f36fc5 ([rocfl_read_pos],
+    [validator_read_pos]: digests and paths, resp. nearly every position, behind a
+    borrowed-only type) violated the property; the same inputs are read back by the current
+    readers (theorems above) *)
+Theorem C10_before_fix_escaped_file_name_wedged : exists dst src lp,
   cp_logical_path dst src = Ok lp /\ utf8_valid lp = true /\
   rocfl_read_pos PLogicalPath (serde_escape lp) = None /\
-  decode_string (serde_escape lp) = Some lp.
+  decode_string (serde_escape lp) = Some lp /\
+  main_read_pos PLogicalPath (serde_escape lp) = Some lp.
 Proof.
   exists (bs [100; 47; 97; 34; 98; 46; 116; 120; 116]), (b "src.txt"), (bs [100; 47; 97; 34; 98; 46; 116; 120; 116]).
   repeat split; vm_compute; reflexivity.
 Qed.
-Print Assumptions C10_rocfl_roundtrip_refuted.
+Print Assumptions C10_before_fix_escaped_file_name_wedged.
 
-Theorem C10_known_escape_class_always_wedges : forall dst src lp,
-  cp_logical_path dst src = Ok lp -> c10_needs_json_escape PLogicalPath lp = true ->
+Theorem C10_before_fix_escape_class_always_wedged : forall dst src lp,
+  cp_logical_path dst src = Ok lp -> needs_escape lp = true ->
   rocfl_read_pos PLogicalPath (serde_escape lp) = None.
-Proof. exact cp_wedge. Qed.
-Print Assumptions C10_known_escape_class_always_wedges.
+Proof. exact cp_wedge_before_fix. Qed.
+Print Assumptions C10_before_fix_escape_class_always_wedged.
 
-Theorem C10_known_validator_escape_refuted : forall p s,
-  c10_validator_needs_json_escape p s = true -> validator_read_pos p (serde_escape s) = None.
-Proof. exact validator_read_fails. Qed.
-Print Assumptions C10_known_validator_escape_refuted.
+Theorem C10_before_fix_validator_refused_escaped_strings : forall p s,
+  (val_pos_borrowed p && needs_escape s) = true -> validator_read_pos p (serde_escape s) = None.
+Proof. exact validator_read_fails_before_fix. Qed.
+Print Assumptions C10_before_fix_validator_refused_escaped_strings.
 
-(** ** historical notes: the acceptance BEFORE fix d88c1da ([create_object_cdir_before_fix] =
+(** historical notes: the acceptance BEFORE fix d88c1da ([create_object_cdir_before_fix] =
     validate_content_dir alone) violated the property; the current model refuses these names *)
 Theorem C10_before_fix_empty_content_dir_wedged : forall v lp,
   create_object_cdir_before_fix [] = true /\
-  rocfl_read_pos PContentPath (serde_escape (content_path v [] lp)) = None /\
+  main_read_pos PContentPath (serde_escape (content_path v [] lp)) = None /\
   create_object_cdir [] = false.
 Proof. intros v lp. split; [reflexivity|split; [exact (content_path_empty_cdir_wedge v lp)|reflexivity]]. Qed.
 Print Assumptions C10_before_fix_empty_content_dir_wedged.
@@ -210,23 +251,40 @@ Proof. repeat split; vm_compute; reflexivity. Qed.
 Example C10_nonvacuous_positions :
   (* a plain file name goes through cp and reads back *)
   cp_logical_path (b "d/x y.txt") (b "src.txt") = Ok (b "d/x y.txt") /\
-  c10_needs_json_escape PLogicalPath (b "d/x y.txt") = false /\
-  rocfl_read_pos PLogicalPath (serde_escape (b "d/x y.txt")) = Some (b "d/x y.txt") /\
-  (* an object id with a quote is an owned String: fine in the main reader, not in the validator *)
+  main_read_pos PLogicalPath (serde_escape (b "d/x y.txt")) = Some (b "d/x y.txt") /\
+  (* a file name with quote, backslash, newline and a control character: cp accepts it, both readers read it back *)
+  cp_logical_path (b "d/") (bs [97; 34; 92; 10; 1; 46; 116]) = Ok (bs [100; 47; 97; 34; 92; 10; 1; 46; 116]) /\
+  main_read_pos PLogicalPath (serde_escape (bs [100; 47; 97; 34; 92; 10; 1; 46; 116])) = Some (bs [100; 47; 97; 34; 92; 10; 1; 46; 116]) /\
+  val_read_pos PLogicalPath (serde_escape (bs [100; 47; 97; 34; 92; 10; 1; 46; 116])) = Some (bs [100; 47; 97; 34; 92; 10; 1; 46; 116]) /\
+  rocfl_read_pos PLogicalPath (serde_escape (bs [100; 47; 97; 34; 92; 10; 1; 46; 116])) = None /\
+  (* an object id with a quote: fine in the main reader and (since 2f36fc5) in the validator *)
   create_object_id (bs [97; 34; 98]) = Ok (bs [97; 34; 98]) /\
-  rocfl_read_pos PId (serde_escape (bs [97; 34; 98])) = Some (bs [97; 34; 98]) /\
+  main_read_pos PId (serde_escape (bs [97; 34; 98])) = Some (bs [97; 34; 98]) /\
+  val_read_pos PId (serde_escape (bs [97; 34; 98])) = Some (bs [97; 34; 98]) /\
   validator_read_pos PId (serde_escape (bs [97; 34; 98])) = None /\
+  (* head / version keys: what rocfl writes is read; the escaped spelling "v" backslash "u0031" (other software) is
+     refused by the main reader only; the hypothesis of C10_foreign_escaped_version_name_refused is satisfiable *)
+  pos_value_ok PHead (b "v1") = true /\ pos_value_ok PVersionKey (b "v0012") = true /\
+  main_read_pos PHead (serde_escape (b "v1")) = Some (b "v1") /\
+  main_read_pos PVersionKey (serde_escape (b "v0012")) = Some (b "v0012") /\
+  decode_string (bs [34; 118; 92; 117; 48; 48; 51; 49; 34]) = Some (b "v1") /\
+  c10_foreign_escaped_version_name PHead (bs [34; 118; 92; 117; 48; 48; 51; 49; 34]) = true /\
+  main_read_pos PHead (bs [34; 118; 92; 117; 48; 48; 51; 49; 34]) = None /\
+  val_read_pos PHead (bs [34; 118; 92; 117; 48; 48; 51; 49; 34]) = Some (b "v1") /\
+  (* an escaped spelling elsewhere (a logical path written a backslash u0041) is read by the main reader *)
+  main_read_pos PLogicalPath (bs [34; 92; 117; 48; 48; 52; 49; 34]) = Some (b "A") /\
+  main_read_pos PStateDigest (bs [34; 92; 117; 48; 48; 52; 49; 34]) = Some (b "A") /\
   (* ids with outer white space (blank, tab, newline, NBSP, U+3000) are stored as given; blank ids are refused *)
   create_object_id (b " ab ") = Ok (b " ab ") /\ create_object_id_before_fix (b " ab ") = Ok (b "ab") /\
   create_object_id (bs [9; 97; 10]) = Ok (bs [9; 97; 10]) /\
   create_object_id (bs [194; 160; 97; 227; 128; 128]) = Ok (bs [194; 160; 97; 227; 128; 128]) /\
-  rocfl_read_pos PId (serde_escape (bs [9; 97; 10])) = Some (bs [9; 97; 10]) /\
+  main_read_pos PId (serde_escape (bs [9; 97; 10])) = Some (bs [9; 97; 10]) /\
   create_object_id [] = Err /\ create_object_id (b "   ") = Err /\ create_object_id (bs [9; 10; 11; 12; 13; 32]) = Err /\
   create_object_id (bs [194; 160]) = Err /\ create_object_id (bs [226; 128; 168; 227; 128; 128; 194; 133]) = Err /\
   (* U+200B ZERO WIDTH SPACE and 0x1F are not White_Space *)
   create_object_id (bs [226; 128; 139]) = Ok (bs [226; 128; 139]) /\ create_object_id (bs [31]) = Ok (bs [31]) /\
   (* content paths *)
-  rocfl_read_pos PContentPath (serde_escape (content_path (mkV 1 0) (b "content") (b "d/f.txt")))
+  main_read_pos PContentPath (serde_escape (content_path (mkV 1 0) (b "content") (b "d/f.txt")))
     = Some (b "v1/content/d/f.txt") /\
   vwf (mkV 1 0) = true /\ vfits (mkV 1 0) = true /\ validate_content_dir (b "content") = true /\
   validate_content_dir (b "inventory.json") = true /\ validate_content_dir (b "a/b") = false /\
@@ -238,7 +296,10 @@ Example C10_nonvacuous_positions :
   create_object_cdir (b "inventory.json.") = false /\ create_object_cdir (b "inventory.json.sha512") = false /\
   create_object_cdir (b "inventory.json.md5") = false /\ create_object_cdir (b "inventory.json.x y") = false /\
   create_object_cdir (b ".") = false /\ create_object_cdir (b "..") = false /\ create_object_cdir (b "a/b") = false /\
+  (* NUL and the 255 / 256 byte boundary *)
+  create_object_cdir (bs [97; 0; 98]) = false /\ create_object_cdir (bs [0]) = false /\
+  create_object_cdir (replicate 255 "x"%char) = true /\ create_object_cdir (replicate 256 "x"%char) = false /\
   cdir_collides (b "inventory.json.sha512") (b "sha512") = true /\
   cdir_collides (b "inventory.json.sha512") (b "sha256") = false /\
-  rocfl_read_pos PContentDir (serde_escape (b "content")) = Some (b "content").
+  main_read_pos PContentDir (serde_escape (b "content")) = Some (b "content").
 Proof. repeat split; vm_compute; reflexivity. Qed.
